@@ -974,6 +974,8 @@ SEQ_ALLOW = [
     ('backends::rust::write_module', '::sort', 'ItemDefinition', 'definitions are sorted by path: this is what makes the output independent of hash order (C09/C20); the key is checked by R-ORDER'),
     ('backends::rust::write_module', '::sort', 'ExternValue', 'extern accessors are sorted (by name); no property fixes their relative order, any sort of a Vec is a deterministic function of it'),
     ('semantic::type_registry::TypeRegistry::resolve_string', 'Iterator::rev', 'ItemPath', 'last `use` of a type wins (C11 precedence)'),
+    ('semantic::type_registry::TypeRegistry::resolve_string', 'DoubleEndedIterator::rfind', 'ItemPath',
+     'last `use` of a type wins (C11 precedence): rfind is find over the reversed list; where it stands is decided by C11-D3|candidate-order'),
 ]
 
 
